@@ -1,6 +1,9 @@
 // Runtime-observation driver: operation histories on real secure_buffer objects (C16) and library calls (C17, C18)
 // with operator new/delete interposed (heapwatch.hpp). Built from /repo's working tree.
 #define HMACCPP_DEPRECATED(msg)
+#include <sys/resource.h>
+#include <sys/mman.h>
+#include <unistd.h>
 #include "heapwatch.hpp"
 #include "drv_common.hpp"
 #include <sys/wait.h>
@@ -460,6 +463,11 @@ int main(int argc, char** argv) {
     if (std::string(argv[1]) == "--firstuse" && argc >= 5) return firstuse_child(atol(argv[2]), argv[3], atoi(argv[4]));
     if (std::string(argv[1]) == "--platform") { printf("size_t=%zu time_t=%zu int=%zu max_pbkdf2_iterations=%u\n", sizeof(size_t), sizeof(time_t), sizeof(int), (unsigned)MAX_PBKDF2_ITERATIONS); return 0; }
     std::ifstream in(argv[1]); std::string line;
+    if (getenv("VERIF_NOMLOCK")) {      // an unprivileged process with no locked-memory budget: every mlock() the library attempts fails (a legitimate environment)
+        struct rlimit rl; rl.rlim_cur = 0; rl.rlim_max = 0; setrlimit(RLIMIT_MEMLOCK, &rl);
+        if (setgid(65534) != 0 || setuid(65534) != 0) { puts("nomlock-unavailable"); return 0; }
+        void* probe = malloc(4096); if (probe && mlock(probe, 4096) == 0) { munlock(probe, 4096); puts("nomlock-unavailable"); return 0; } free(probe);
+    }
     while (std::getline(in, line)) {
         std::vector<std::string> a = split(line, ' ');
         if (a.empty()) continue;
